@@ -2187,6 +2187,7 @@ SIMPLE_TO_JSON = Contract(
                     jfield(c.res, 'exceptionType') == PyV.PStr(OSTR.val(
                         c.old('SimpleOperation.exception_type_str', c.operation))))))],
     modifies=NOTHING)
+SIMPLE_TO_JSON.replay_decided = True     # one half of the format: the pair is judged (C16)
 CONTRACTS.append(SIMPLE_TO_JSON)
 
 
@@ -2235,6 +2236,7 @@ COMPLEX_TO_JSON = Contract(
         ('serialised-so-far', ForAll([qi_], Implies(
             And(0 <= qi_, qi_ < c.loop['i']), c.gnew('ser')[c.loop['seq'][qi_]]))),
         ('log-only-grows', ForAll([qr_], Implies(c.gentry('ser')[qr_], c.gnew('ser')[qr_])))])})
+COMPLEX_TO_JSON.replay_decided = True
 CONTRACTS.append(COMPLEX_TO_JSON)
 
 
